@@ -56,13 +56,22 @@ ASSUMPTIONS = [
 ]
 
 
-def _cfg(defects, instances=2, maxgen=2, maxevents=6, late=False, props=PROPS, typeok=True):
+EXT_INVS = ['InvCleaning', 'InvQuiescent', 'InvSync']
+EXT_PROPS = ['PropInvoke', 'PropDirsByInvoke']
+EXT_ACTIONS = ['CleanupStart', 'CleanupEvent', 'CleanupCompletes', 'MonitorCleanup', 'OnDeleted',
+               'Synchronize', 'NodeStart']
+
+
+def _cfg(defects, instances=2, maxgen=2, maxevents=6, late=False, props=PROPS, typeok=True,
+         svc=False, invs=()):
     lines = ['SPECIFICATION Spec', 'CONSTANTS',
              ' Instances = {%s}' % ', '.join('"a%d"' % (k + 1) for k in range(instances)),
              ' MaxGen = %d' % maxgen, ' MaxEvents = %d' % maxevents,
              ' Defects = {%s}' % ', '.join('"%s"' % d for d in defects),
              ' LateMonitor = %s' % ('TRUE' if late else 'FALSE'),
+             ' CleanupSvc = %s' % ('TRUE' if svc else 'FALSE'),
              'CHECK_DEADLOCK FALSE']
+    lines += ['INVARIANT %s' % i for i in invs]
     if typeok:
         lines.append('INVARIANT TypeOK')
     lines += ['PROPERTY %s' % p for p in props]
@@ -116,29 +125,69 @@ def _mc(ctx):
             ctx.log('model with defects %s: no counterexample within the bound' % name)
 
 
+def _mc_ext(ctx):
+    """Extension beyond C13 (DESIGN.md 5 / 10.6): the cleanup service
+    (cleanup.Cleanup) as part of AppCfg.tla, model-checked with its own
+    invariants (and the C13 clauses, which must survive its interleavings)."""
+    if ctx.quick:
+        runs = [('ext cleanup service 1x2 events<=7', 'MC_AppCfg_cleanup.cfg', None)]
+    else:
+        runs = [('ext cleanup service 2x2 events<=7', 'x',
+                 _cfg([], 2, 2, 7, svc=True, invs=EXT_INVS, props=EXT_PROPS + PROPS)),
+                ('ext cleanup service 1x3 events<=9', 'x',
+                 _cfg([], 1, 3, 9, svc=True, invs=EXT_INVS, props=EXT_PROPS + PROPS)),
+                ('ext cleanup service 1x2 events<=7, unchanged appcfgmgr', 'x',
+                 _cfg(ALL_DEFECTS, 1, 2, 7, svc=True, invs=EXT_INVS, props=EXT_PROPS))]
+    out = []
+    for k, (name, cfg, text) in enumerate(runs):
+        if text is None:
+            res = tlc.mc(SPEC_DIR, 'AppCfg', cfg, coverage=True, timeout=300, workers=8)
+        else:
+            fname = 'MC_ext_%d.cfg' % k
+            res = tlc.mc(SPEC_DIR, 'AppCfg', fname, coverage=(k == 0), timeout=900, workers=8,
+                         extra_files={fname: text})
+        ctx.add_mc(name, res, need_actions=EXT_ACTIONS if res['coverage'] else ())
+        if res['violated']:
+            ctx.log('extension: %s violated in the MODEL (%s) - design level, not the code' % (
+                res['violated'], name))
+        out.append(dict(name=name, violated=res['violated'], distinct=res['distinct'],
+                        generated=res['generated'], complete=res['ok']))
+    return out
+
+
 def _tlc_histories(ctx, n, depth):
     from .. import appcfg_driver as drv
-    out = []
-    for k, defects in enumerate((ALL_DEFECTS, [])):
+    # (source, defects, cleanup service modelled, number, depth, seed)
+    plan = [('tlc', ALL_DEFECTS, False, n // 2, depth, ctx.seed * 31),
+            ('tlc', [], False, n // 2, depth, ctx.seed * 31 + 1),
+            ('tlc-svc', [], True, max(20, n // 3), depth + 6, ctx.seed * 31 + 7)]   # extension
+
+    def one(k):
+        src, defects, svc, num, dep, seed = plan[k]
         fname = 'MC_sim_%d.cfg' % k
-        text = _cfg(defects, 2, 3, 1000, props=[], typeok=False)
-        behaviours, cmd = tlc.simulate(SPEC_DIR, 'AppCfg', fname, num=n // 2, depth=depth,
-                                       seed=ctx.seed * 31 + k, procs=4 if ctx.quick else 8,
-                                       extra_files={fname: text},
+        text = _cfg(defects, 2, 3, 1000, props=[], typeok=False, svc=svc)
+        behaviours, cmd = tlc.simulate(SPEC_DIR, 'AppCfg', fname, num=num, depth=dep, seed=seed,
+                                       procs=4 if ctx.quick else 8, extra_files={fname: text},
                                        timeout=120 if ctx.quick else 900)
-        ctx.cmds.append(cmd)
-        out += [('tlc', drv.from_labels(b)) for b in behaviours]
+        return cmd, [(src, drv.from_labels(b)) for b in behaviours]
+    out = []
+    with concurrent.futures.ThreadPoolExecutor(3) as ex:
+        for cmd, hs in ex.map(one, range(len(plan))):
+            ctx.cmds.append(cmd)
+            out += hs
     return out
 
 
 def _replay_chunk(jobs):
-    """Worker: jobs = [(src, history | None, seed, depth, instances, maxgen, late)]."""
+    """Worker: jobs = [(src, history | None, seed, depth, instances, maxgen, late[, svc])]."""
     from .. import appcfg_driver as drv
     out = []
-    for src, hist, seed, depth, instances, maxgen, late in jobs:
+    for job in jobs:
+        src, hist, seed, depth, instances, maxgen, late = job[:7]
+        svc = len(job) > 7 and job[7]
         if hist is None:
             eff, lines = drv.replay(None, rng=random.Random(seed), depth=depth,
-                                    instances=instances, maxgen=maxgen, late=late)
+                                    instances=instances, maxgen=maxgen, late=late, svc=svc)
         else:
             eff, lines = drv.replay(hist, late=late)
         out.append(dict(src=src, history=eff, lines=lines, late=late))
@@ -183,6 +232,7 @@ def judge(ctx, traces, verdicts):
     clause_hits = collections.Counter()
     flags = collections.Counter()
     drift_samples = []
+    ext_fail = collections.Counter()
     for v in verdicts:
         t = by_tid[v['tid']]
         fails = set(v['fail'])
@@ -193,7 +243,10 @@ def judge(ctx, traces, verdicts):
             # the driver delivered something the model does not enable: harness problem
             raise tlc.MachineryError('event not enabled in the model: %s step %d %r' % (
                 v['tid'], v['i'], t['lines'][v['i']]['ev']))
-        if any(f.startswith('drift.') for f in fails):
+        for f in fails:
+            if f.startswith('ext.'):
+                ext_fail[f] += 1
+        if any(f.startswith('drift.') or f.startswith('ext.') for f in fails):
             ctx.drift += 1
             if len(drift_samples) < 3:
                 drift_samples.append(dict(tid=v['tid'], step=v['i'], event=t['lines'][v['i']]['ev'],
@@ -226,15 +279,24 @@ def judge(ctx, traces, verdicts):
     if not samples and traces:
         samples.append(dict(source=traces[0]['src'], history=_fmt(traces[0]['history'])))
     if ctx.drift:
-        print('DRIFT: %d recorded steps are a step of neither the unchanged nor the repaired model '
-              '(spec needs updating; not a violation)' % ctx.drift)
+        print('DRIFT: %d recorded steps are a step of neither the unchanged nor the repaired model, or '
+              'miss a guarantee of the cleanup-service extension %s '
+              '(spec needs updating; not a violation)' % (ctx.drift, dict(ext_fail) or ''))
+    extensions = dict(
+        cleanup_service=dict(
+            what='cleanup.Cleanup._sync/_add_cleanup_app/_remove_cleanup_app/invoke as actions of '
+                 'AppCfg.tla; clauses ext.cleanup.step/invoke/dirs/cleaning/sync (conformance class)',
+            model_runs=getattr(ctx, 'ext_mc', []),
+            steps_of_the_service=flags.get('ext.cleanup', 0),
+            invoke_on_vanished_target=flags.get('ext.cleanup.gone', 0),
+            steps_judged=evaluations, failed=dict(ext_fail)))
     return core.conclude(
         ctx, level='model_checking', violations=violations, evaluations=evaluations,
         distinct_nontrivial=len(nontrivial), rule=RULE, samples=samples,
         traces_validated=len(traces), assumptions=ASSUMPTIONS,
         extra=dict(trace_sources=dict(collections.Counter(t['src'] for t in traces)),
                    clause_failures=dict(clause_hits), step_flags=dict(flags),
-                   drift_samples=drift_samples, notes=ctx.notes,
+                   drift_samples=drift_samples, notes=ctx.notes, extensions=extensions,
                    repo=core.REPO))
 
 
@@ -261,7 +323,10 @@ def _with_java_tmp(fn):
 
 @_with_java_tmp
 def run(ctx):
-    cex = list(_mc(ctx))
+    with concurrent.futures.ThreadPoolExecutor(2) as ex:
+        f_ext = ex.submit(_mc_ext, ctx)          # extension MC alongside the C13 MC
+        cex = list(_mc(ctx))
+        ctx.ext_mc = f_ext.result()
     n_tlc, depth = (100, 26) if ctx.quick else (3000, 30)
     n_rnd = 300 if ctx.quick else 12000
     hist = cex + _tlc_histories(ctx, n_tlc, depth)
@@ -271,8 +336,16 @@ def run(ctx):
         jobs.append(('rnd', None, rng.randrange(2 ** 30), rng.choice([16, 25, 40]),
                      ('a1', 'a2', 'a3') if k % 3 == 0 else ('a1', 'a2'),
                      3 if k % 2 else 2, k % 4 == 3))
-    ctx.log('%d histories (%d counterexamples, %d TLC-simulated, %d random)' % (
-        len(jobs), len(cex), len(hist) - len(cex), n_rnd))
+    # extension: histories in which the cleanup service runs (own generator stream, so
+    # that the histories above are the same as without the extension)
+    rng2 = random.Random(ctx.seed * 104729 + 5)
+    n_svc = 100 if ctx.quick else 4000
+    for k in range(n_svc):
+        jobs.append(('rnd-svc', None, rng2.randrange(2 ** 30), rng2.choice([25, 40, 50]),
+                     ('a1', 'a2', 'a3') if k % 3 == 0 else ('a1', 'a2'), 3 if k % 2 else 2,
+                     False, True))
+    ctx.log('%d histories (%d counterexamples, %d TLC-simulated, %d random, %d random with the '
+            'cleanup service)' % (len(jobs), len(cex), len(hist) - len(cex), n_rnd, n_svc))
     traces = _record(ctx, jobs, 8 if ctx.quick else 14)
     ctx.log('recorded %d traces, %d lines' % (len(traces), sum(len(t['lines']) for t in traces)))
     verdicts, stats = _validate(traces, timeout=300 if ctx.quick else 3000)
